@@ -224,6 +224,15 @@ def gen_actions(rng, n, tcp=False):
         if rng.random() < 0.12:
             acts.append({"shake": shake, "ser": ser, "hex": common.hx(c05_gen.invalid_prefix(rng)), "close": "wait", "kind": "silentprefix"})
             continue
+        if rng.random() < 0.12:
+            # a payload in which one component is a serialised Proxy pointing at the harness's trap endpoints
+            from props import c05_rig
+            t = c05_rig.Trap.get()
+            comp = rng.choice(c05_gen.PROXY_COMPONENTS_ACTIVE if shake else c05_gen.PROXY_COMPONENTS_FRESH)
+            data, _ = c05_gen.proxy_message(ser, rng.randint(0, 65535), comp, rng.choice([t.blackhole, t.blackhole, t.closed]),
+                                            rng.choice(["bare", "dictlike"]), 5000 + len(acts))
+            acts.append({"shake": shake, "ser": ser, "hex": common.hx(data), "close": "drain", "kind": "proxy:" + comp})
+            continue
         if shake:
             spec = g.g.method(False)
             spec.pop("track", None)
@@ -253,6 +262,18 @@ NO_REFUSAL = ("%s server (real sockets): a peer sent %d bytes that already fail 
 def scenario(ctx, servertype, commtimeout, poolsize, acts1, acts2, case, tcp=False):
     """-> list of (signature, description)"""
     fails = []
+    from props import c05_rig
+    trap = c05_rig.Trap.get()
+    trap.armed = True
+    trap_mark = len(trap.attempts)
+
+    def outbound(acts):
+        if len(trap.attempts) > trap_mark:
+            kinds = sorted({a["kind"] for a in acts if a["kind"].startswith("proxy:")})
+            fails.insert(0, ("real:outbound-connection:" + servertype,
+                             "%s server (real sockets): the daemon made %d connection attempt(s) to the address named in a serialised "
+                             "Proxy that a peer sent as part of a handshake / call / batch payload (%s)"
+                             % (servertype, len(trap.attempts) - trap_mark, ", ".join(kinds))))
     rd = RealDaemon(servertype, poolsize, commtimeout, tcp)
     try:
         w = [rd.proxy(), rd.proxy()]
@@ -357,6 +378,7 @@ def scenario(ctx, servertype, commtimeout, poolsize, acts1, acts2, case, tcp=Fal
             fails.append(("real:objects-lost:" + servertype, "daemon.objectsById changed"))
         for p in w:
             p._pyroRelease()
+        outbound(acts1 + acts2)
         return fails
     finally:
         rd.close()
